@@ -320,6 +320,8 @@ def run_value(case, rec):
         I = direct_model.call_kernel(kernel, dict(pars), cutoff=cutoff)
     finally:
         tr.restore()
+    held = core.Held()
+    held.keep("I(q) returned by call_kernel", I)
     ref, ev = oracle.intensity(mesh, qo, dim, cutoff)
     st = dict(oracle.stats)
     scale_I = float(np.max(np.abs(ref - mesh[1][0]))) if len(ref) else 0.0
@@ -348,6 +350,7 @@ def run_value(case, rec):
         fpars = dict(pars)
         fpars["radius_effective_mode"] = mode
         F1, F2, R, Vs, ratio = direct_model.call_Fq(kernel, fpars, cutoff=cutoff)
+        held.keep("outputs of call_Fq", (F1, F2))
         evF = oracle.evaluate(mesh, qo, dim, cutoff, mode=mode, want_F1=True)
         if evF["weight"] > 0:
             s2 = float(np.max(np.abs(evF["F2"]))) if len(evF["F2"]) else 0.0
@@ -408,6 +411,13 @@ def run_value(case, rec):
         if k.endswith("_pd_type"):
             rec.bucket("dist:" + pars[k])
     shape = (name, dim, sorted((k[:-8], pars[k]) for k in pars if k.endswith("_pd_type")), lengths, cmode, nq)
+    # one more evaluation on the same kernel object with another scale and a monodisperse mesh, then: what was
+    # returned earlier still holds the values it was returned with
+    try:
+        direct_model.call_kernel(kernel, {"scale": 2.5*pars.get("scale", 1.0) + 0.1, "background": 0.37})
+    except Exception:
+        pass
+    held.verify(rec, ctx)
     rec.set_shape(shape, nontrivial=(max(lengths + [0]) >= 2 or meta["trunc"] is not None))
     rec.count("kernel_invocations", len(tr.trace))
     rec.count("mesh_points", st["mesh_points"])
